@@ -489,6 +489,28 @@ fn block_builder(item: &Value) -> BlockBuilder {
     bb
 }
 
+pub(crate) fn block_text(item: &Value) -> String {
+    block_builder(item).to_string()
+}
+
+pub(crate) fn authorizer_text(item: &Value) -> String {
+    let mut ab = AuthorizerBuilder::new();
+    for f in item["facts"].as_array().unwrap() {
+        let p = pred_b(f);
+        ab = ab.fact(Fact::new(p.name, p.terms)).unwrap();
+    }
+    for r in item["rules"].as_array().unwrap() {
+        ab = ab.rule(rule_b(r)).unwrap();
+    }
+    for c in item["checks"].as_array().unwrap() {
+        ab = ab.check(check_b(c)).unwrap();
+    }
+    for p in item["policies"].as_array().unwrap() {
+        ab = ab.policy(policy_b(p)).unwrap();
+    }
+    ab.dump_code()
+}
+
 fn token_of(bb: BlockBuilder, keys: &Keys) -> Biscuit {
     // BiscuitBuilder::merge leaves the scopes behind: pass them on one by one
     let scopes = bb.scopes.clone();
